@@ -200,18 +200,12 @@ func (fd *Client) UpdateTable(input *dynamodb.UpdateTableInput) (*dynamodb.Updat
 		return nil, awserr.New(dynamodb.ErrCodeResourceNotFoundException, "Cannot do operations on a non-existent table", nil)
 	}
 
-	if input.AttributeDefinitions != nil {
-		if err := table.UpdateAttributeDefinition(mapAttributeValueDefinitionToDynamodb(input.AttributeDefinitions)); err != nil {
-			return nil, err
-		}
-	}
-
-	for _, change := range input.GlobalSecondaryIndexUpdates {
-		if err := table.ApplyIndexChange(mapGlobalSecondaryIndexUpdateToTypes(change)); err != nil {
-			return &dynamodb.UpdateTableOutput{
-				TableDescription: mapTableDescriptionToDynamodb(table.Description(tableName)),
-			}, err
-		}
+	// a failing change leaves the table as it was
+	err := table.UpdateIndexes(mapAttributeValueDefinitionToDynamodb(input.AttributeDefinitions), mapGlobalSecondaryIndexUpdatesToTypes(input.GlobalSecondaryIndexUpdates))
+	if err != nil {
+		return &dynamodb.UpdateTableOutput{
+			TableDescription: mapTableDescriptionToDynamodb(table.Description(tableName)),
+		}, err
 	}
 
 	return &dynamodb.UpdateTableOutput{
